@@ -581,6 +581,43 @@ impl From<&'static str> for Expr {
     }
 }
 
+// Verification hook (off by default): exposes the private lexer / parser / folding
+// passes to the external correspondence harness.  Adds no behaviour.
+#[cfg(spindalis_verif)]
+pub mod verif {
+    use super::*;
+
+    pub fn lex(input: &str) -> Result<Vec<Token>, PolynomialError> {
+        lexer(input)
+    }
+
+    pub fn implied_multiplication(mut tokens: Vec<Token>) -> Vec<Token> {
+        implied_multiplication_pass(&mut tokens);
+        tokens
+    }
+
+    /// The tree before constant folding (tokens as produced by `lex`)
+    pub fn parse_unfolded(tokens: Vec<Token>) -> Result<Expr, PolynomialError> {
+        let mut tokens = tokens;
+        implied_multiplication_pass(&mut tokens);
+        let mut token_stream = tokens.into_iter().peekable();
+        let ast_node = parse_expr(&mut token_stream, 0.0)?;
+        if let Some(token) = token_stream.next() {
+            return Err(PolynomialError::UnexpectedToken { token });
+        }
+        Ok(ast_node)
+    }
+
+    pub fn fold(expr: Expr) -> Expr {
+        fold_operations(expr)
+    }
+
+    /// `parser` as the crate runs it (folded), rendered with Display
+    pub fn parse_display(tokens: Vec<Token>) -> Result<String, PolynomialError> {
+        parser(tokens).map(|p| p.to_string())
+    }
+}
+
 #[cfg(test)]
 mod tests {
     use super::*;
